@@ -330,6 +330,11 @@ func (fs LocalFileSystem) Move(ctx context.Context, src, dst string, options *Mo
 		return false, NewHTTPError(http.StatusForbidden, fmt.Errorf("webdav: source and destination overlap"))
 	}
 
+	// Don't remove the destination for a source which doesn't exist
+	if _, err := os.Stat(srcPath); err != nil {
+		return false, errFromOS(err)
+	}
+
 	if _, err := os.Stat(dstPath); err != nil {
 		if !os.IsNotExist(err) {
 			return false, errFromOS(err)
